@@ -80,7 +80,7 @@ pub fn set_op<K: SimK, V: SimV, const C: usize>(s: &mut Set<K, C>, cx: &mut Cx<K
                 violate("drain-not-empty", format!("after Set::drain() (taken {} of {}, end {:?}) len()={} and iteration yields {} elements", sess.taken, pre.len(), end, s.len(), left.len()));
             }
             if *end != End::Forget && !cx.lying {
-                let ok = crate::world::observing(|| {
+                let refill = |s: &mut Set<K, C>| -> bool {
                     std::panic::catch_unwind(std::panic::AssertUnwindSafe(|| {
                         let want = if K::ANON { C.min(1) } else { C };
                         let mut good = true;
@@ -95,9 +95,10 @@ pub fn set_op<K: SimK, V: SimV, const C: usize>(s: &mut Set<K, C>, cx: &mut Cx<K
                         good && s.is_empty()
                     }))
                     .unwrap_or(false)
-                });
+                };
+                let ok = crate::world::observing(|| refill(s) || !refill(&mut Set::new()));
                 if !ok {
-                    violate("drain-not-reusable", format!("after Set::drain() (taken {} of {}, end {:?}) the set cannot be refilled to its capacity {C} and queried", sess.taken, pre.len(), end));
+                    violate("drain-not-reusable", format!("after Set::drain() (taken {} of {}, end {:?}) the set cannot be refilled to its capacity {C} and queried, although a fresh set can", sess.taken, pre.len(), end));
                 }
             }
         }
